@@ -59,7 +59,7 @@ def run(ctx):
             titles = {m["title"]: m for m in final["manifests"].values()}
             for j, req in enumerate(v["requests"], start=1):
                 for t in req:
-                    lab = "org.vh.%sm%d" % (t["kind"], t["m"])
+                    lab = "org.vh.cm%d%s" % (t["m"], "" if t["kind"] == "c1" else "__1")
                     m = titles.get("L%d" % t["m"])
                     if m is not None and lab in (m.get("assertions") or []):
                         ctx.violation("redacted-assertion-still-listed", "assertion %s of manifest %d is redacted but still reported" % (lab, t["m"]), case)
